@@ -41,6 +41,8 @@ var headerOnly = map[string]bool{"IPv4": true}
 func checkC08(c *core.Ctx) {
 	p := c.P
 	c.Explain = "Structural clauses of 'written checksums are correct; verification accepts exactly the correct ones', decided on the six emitters/verifiers (IPv4, TCP, UDP, ICMPv4, ICMPv6, GRE), on the shared pseudo-header helper and on checksum.go: (R8.1) on the ComputeChecksums path both checksum bytes (position taken from the final PutUint16 of x.Checksum) are stored as 0 before the summing call, the sum covers the header only for IPv4 and header+payload otherwise, the folded sum is what is stored into x.Checksum and then written; (R8.2) the protocol number passed to the pseudo-header sum is the same constant in SerializeTo, VerifyChecksum (and ComputeChecksum) of a type and is the IPProtocol whose metadata row decodes to that layer; (R8.3) each verifier returns Valid = (Fold(sum - stored) == stored) up to a protocol-specific disjunct, Correct = that folded value, Actual = stored, over contents+payload (contents only for IPv4); (R8.4) a post-fold map in the emitter (UDP 0 -> 0xffff) is applied by the verifier too; (R8.5) pseudo-header sums are consumed only by the shared helper, which adds protocol and both halves of the length; (R8.6) recognised-shape check of FoldChecksum (fold repeated until no carry) and ComputeChecksum (even byte <<8, odd byte unshifted, odd tail <<8, stride 2) — a shape that is recognised and wrong is a violation, an unrecognised one is undecided. Not decided: RFC 1071 arithmetic for all inputs, single-bit-flip detection."
+	verifyVisitsEveryLayer(c, c.Rule("R8.8", "T", "Packet.VerifyChecksums visits every layer: its loop ends only when the list is exhausted or with an error"))
+	pseudoHeaderHeadroom(c, c.Rule("R8.9", "D", "the partial sum a pseudo-header helper returns leaves headroom for the 32-bit accumulation that follows"))
 	r7 := c.Rule("R8.7", "T", "after the checksum has been computed over the buffer only the checksum field is written")
 	r1 := c.Rule("R8.1", "T", "emit: zero both checksum bytes -> sum the right span -> store the folded value -> write it")
 	r2 := c.Rule("R8.2", "T", "pseudo-header protocol constant agrees between emit, verify and the IPProtocol table")
@@ -671,4 +673,336 @@ func precedesAssuming(fn *ssa.Function, st, target ssa.Instruction) bool {
 		return true
 	})
 	return hit == nil
+}
+
+// verifyVisitsEveryLayer (R8.8): Packet.VerifyChecksums reports a mismatch
+// for every layer whose checksum is wrong, so its loop over the layer list
+// must reach every element: the loop is left only from its header (list
+// exhausted) or on a path that returns a non-nil error; every element is
+// tested for LayerWithChecksum and verified when it is one.
+func verifyVisitsEveryLayer(c *core.Ctx, r *core.Rule) {
+	p := c.P
+	fn := p.Func("", "packet.VerifyChecksums")
+	if fn == nil || len(fn.Blocks) == 0 {
+		r.Missing("gopacket.(*packet).VerifyChecksums", "function not found")
+		return
+	}
+	key := core.FnKey(fn) + "/"
+	// the loop that calls VerifyChecksum
+	var call *ssa.Call
+	core.Instrs(fn, func(ins ssa.Instruction) {
+		if cl, ok := ins.(*ssa.Call); ok && cl.Call.IsInvoke() && cl.Call.Method.Name() == "VerifyChecksum" {
+			call = cl
+		}
+	})
+	if call == nil {
+		r.Missing(key+"VerifyChecksum call", "no invoke of LayerWithChecksum.VerifyChecksum found")
+		return
+	}
+	// innermost loop header containing the call
+	var h *ssa.BasicBlock
+	inLoop := map[*ssa.BasicBlock]bool{}
+	for _, cand := range fn.Blocks {
+		var work []*ssa.BasicBlock
+		for _, pr := range cand.Preds {
+			if cand.Dominates(pr) {
+				work = append(work, pr)
+			}
+		}
+		if len(work) == 0 {
+			continue
+		}
+		loop := map[*ssa.BasicBlock]bool{cand: true}
+		for len(work) > 0 {
+			x := work[len(work)-1]
+			work = work[:len(work)-1]
+			if loop[x] {
+				continue
+			}
+			loop[x] = true
+			work = append(work, x.Preds...)
+		}
+		if loop[call.Block()] && (h == nil || len(loop) < len(inLoop)) {
+			h, inLoop = cand, loop
+		}
+	}
+	if h == nil {
+		r.Violate(key+"loop", p.InstrPos(call), "VerifyChecksum is not called in a loop over the layers: at most one layer is verified", nil)
+		return
+	}
+	var bad ssa.Instruction
+	for b := range inLoop {
+		if b == h {
+			continue
+		}
+		for _, s := range b.Succs {
+			if inLoop[s] {
+				continue
+			}
+			// leaving the loop from inside its body: only towards a return of a non-nil error
+			okExit := false
+			if ret, ok := s.Instrs[len(s.Instrs)-1].(*ssa.Return); ok && len(ret.Results) >= 1 {
+				if provablyNonNilErr(core.RetOperand(ret, 0), s) {
+					okExit = true
+				}
+			}
+			if ret, ok := b.Instrs[len(b.Instrs)-1].(*ssa.Return); ok && len(ret.Results) >= 1 && provablyNonNilErr(core.RetOperand(ret, 0), b) {
+				okExit = true
+			}
+			if !okExit {
+				bad = b.Instrs[len(b.Instrs)-1]
+			}
+		}
+	}
+	r.Check(bad == nil, key+"visits-every-layer", p.InstrPos(call), "the loop is left only when the layer list is exhausted or an error is returned", "the loop over the layers can be left early without an error"+func() string {
+		if bad != nil {
+			return " (at " + p.InstrPos(bad) + ")"
+		}
+		return ""
+	}()+": the layers behind that point — for instance everything inside a UDP tunnel — are never verified, so a wrong checksum there is not reported")
+	// the type test guards only the verification, on the loop element
+	okElem := false
+	if ta, ok := call.Call.Value.(*ssa.Extract); ok {
+		if t, ok := ta.Tuple.(*ssa.TypeAssert); ok && inLoop[t.Block()] {
+			okElem = true
+		}
+	}
+	r.Check(okElem, key+"verifies-the-loop-element", p.InstrPos(call), "the layer verified is the loop element asserted to LayerWithChecksum", "the value verified is not the loop element's LayerWithChecksum view")
+}
+
+// pseudoHeaderHeadroom (R8.9): the partial sum a pseudo-header helper returns
+// is carried on in 32-bit arithmetic (protocol, length, then up to 65535
+// payload bytes as 16-bit words: at most 2^31).  The helper's result therefore
+// needs headroom: an upper bound of at most 2^24 must follow from the types
+// and constant loop bounds of its computation.  Summing wider units (32-bit
+// words folded once) is congruent mod 0xffff but can sit just below 2^32, and
+// the later additions then wrap and lose a carry.
+func pseudoHeaderHeadroom(c *core.Ctx, r *core.Rule) {
+	p := c.P
+	n := 0
+	for _, fn := range core.SortedFns(p.AllFns) {
+		if !p.InModule(fn) || fn.Name() != "pseudoheaderChecksum" || len(fn.Blocks) == 0 {
+			continue
+		}
+		if strings.Contains(fn.String(), "$") || fn.Synthetic != "" {
+			continue
+		}
+		n++
+		worst := int64(0)
+		unknown := false
+		for _, ret := range core.Returns(fn) {
+			v := core.RetOperand(ret, 0)
+			if core.IsNilConst(core.RetOperand(ret, 1)) == false {
+				if k, ok := core.ConstInt(v); ok && k == 0 {
+					continue // error return
+				}
+			}
+			u := sumUB(v, 0, map[ssa.Value]bool{})
+			if u < 0 {
+				unknown = true
+			} else if u > worst {
+				worst = u
+			}
+		}
+		key := core.FnKey(fn) + "/headroom"
+		switch {
+		case unknown:
+			r.Undecided(key, p.Pos(fn.Pos()), "no upper bound derivable for the returned partial sum")
+		case worst <= 1<<24:
+			r.OK(key, p.Pos(fn.Pos()), fmt.Sprintf("returned partial sum <= %d", worst))
+		default:
+			r.Violate(key, p.Pos(fn.Pos()), fmt.Sprintf("the partial sum returned can be as large as %d: protocol, length and up to 2^31 of payload words are then added in uint32, which wraps and drops a carry — the checksum written (and the one used to verify) is off by one for inputs that reach the wrap", worst), nil)
+		}
+	}
+	if n < 2 {
+		r.Missing("layers/pseudoheaderChecksum", fmt.Sprintf("only %d implementations found", n))
+	}
+}
+
+// sumUB: upper bound of an unsigned integer expression from types, constant
+// shifts/masks and accumulation loops with a constant trip count; -1 unknown.
+func sumUB(v ssa.Value, d int, busy map[ssa.Value]bool) int64 {
+	if d > 12 {
+		return -1
+	}
+	if k, ok := core.ConstInt(v); ok {
+		return k
+	}
+	tmax := func(t types.Type) int64 {
+		if b, ok := t.Underlying().(*types.Basic); ok {
+			switch b.Kind() {
+			case types.Uint8:
+				return 255
+			case types.Uint16:
+				return 65535
+			case types.Uint32:
+				return 1<<32 - 1
+			}
+		}
+		return -1
+	}
+	switch x := v.(type) {
+	case *ssa.Convert:
+		in := sumUB(x.X, d+1, busy)
+		m := tmax(x.Type())
+		if in >= 0 && (m < 0 || in <= m) {
+			return in
+		}
+		if mi := tmax(x.X.Type()); mi >= 0 && (m < 0 || mi <= m) {
+			return mi
+		}
+		return m
+	case *ssa.UnOp:
+		if x.Op == token.MUL {
+			return tmax(x.Type())
+		}
+	case *ssa.Call:
+		return tmax(x.Type())
+	case *ssa.Extract:
+		return tmax(x.Type())
+	case *ssa.BinOp:
+		a, b := sumUB(x.X, d+1, busy), sumUB(x.Y, d+1, busy)
+		switch x.Op {
+		case token.ADD:
+			if a >= 0 && b >= 0 {
+				return a + b
+			}
+		case token.SHL:
+			if k, ok := core.ConstInt(x.Y); ok && a >= 0 && k < 32 {
+				return a << uint(k)
+			}
+		case token.SHR:
+			if k, ok := core.ConstInt(x.Y); ok && a >= 0 {
+				return a >> uint(k)
+			}
+		case token.AND:
+			if k, ok := core.ConstInt(x.Y); ok {
+				if a >= 0 && a < k {
+					return a
+				}
+				return k
+			}
+			if k, ok := core.ConstInt(x.X); ok {
+				return k
+			}
+		case token.OR:
+			if a >= 0 && b >= 0 {
+				return a + b
+			}
+		}
+		return tmax(x.Type())
+	case *ssa.Phi:
+		if busy[x] {
+			return -2 // the accumulator itself
+		}
+		// accumulator of a loop with a constant trip count: φ(init, φ + incs)
+		h := x.Block()
+		var init, next ssa.Value
+		for i, pr := range h.Preds {
+			if h.Dominates(pr) {
+				next = x.Edges[i]
+			} else {
+				init = x.Edges[i]
+			}
+		}
+		if init == nil || next == nil || len(x.Edges) != 2 {
+			worst := int64(0)
+			for _, e := range x.Edges {
+				u := sumUB(e, d+1, busy)
+				if u < 0 {
+					return -1
+				}
+				if u > worst {
+					worst = u
+				}
+			}
+			return worst
+		}
+		trips := loopTrips(h)
+		if trips < 0 {
+			return -1
+		}
+		busy[x] = true
+		// next = x + inc1 + inc2 ...: collect increments
+		var incs int64
+		okAcc := true
+		var peel func(v ssa.Value) bool
+		peel = func(v ssa.Value) bool {
+			if v == ssa.Value(x) {
+				return true
+			}
+			bo, ok := v.(*ssa.BinOp)
+			if !ok || bo.Op != token.ADD {
+				return false
+			}
+			if peel(bo.X) {
+				u := sumUB(bo.Y, d+1, busy)
+				if u < 0 {
+					okAcc = false
+				}
+				incs += u
+				return true
+			}
+			if peel(bo.Y) {
+				u := sumUB(bo.X, d+1, busy)
+				if u < 0 {
+					okAcc = false
+				}
+				incs += u
+				return true
+			}
+			return false
+		}
+		found := peel(next)
+		delete(busy, x)
+		i0 := sumUB(init, d+1, busy)
+		if !found || !okAcc || i0 < 0 {
+			return -1
+		}
+		return i0 + trips*incs
+	}
+	return tmax(v.Type())
+}
+
+// loopTrips: number of iterations of `for i := a; i < K; i += s` with constant
+// a, K, s, recognised at the loop header h; -1 otherwise.
+func loopTrips(h *ssa.BasicBlock) int64 {
+	iff, ok := h.Instrs[len(h.Instrs)-1].(*ssa.If)
+	if !ok {
+		return -1
+	}
+	bo, ok := iff.Cond.(*ssa.BinOp)
+	if !ok || (bo.Op != token.LSS && bo.Op != token.LEQ) {
+		return -1
+	}
+	k, ok := core.ConstInt(bo.Y)
+	if !ok {
+		return -1
+	}
+	iv, ok := bo.X.(*ssa.Phi)
+	if !ok || iv.Block() != h || len(iv.Edges) != 2 {
+		return -1
+	}
+	var a, s int64 = -1, -1
+	for i, pr := range h.Preds {
+		if h.Dominates(pr) {
+			if inc, ok := iv.Edges[i].(*ssa.BinOp); ok && inc.Op == token.ADD && inc.X == ssa.Value(iv) {
+				if sv, ok := core.ConstInt(inc.Y); ok && sv > 0 {
+					s = sv
+				}
+			}
+		} else if av, ok := core.ConstInt(iv.Edges[i]); ok {
+			a = av
+		}
+	}
+	if a < 0 || s <= 0 {
+		return -1
+	}
+	if bo.Op == token.LEQ {
+		k++
+	}
+	if k <= a {
+		return 0
+	}
+	return (k - a + s - 1) / s
 }
